@@ -712,11 +712,12 @@ class Bubble(monoidal.Bubble, Box):
         from sympy import Symbol
         tmp = Symbol("tmp")
         name = "$\\frac{{\\partial {}}}{{\\partial {}}}$"
-        return Spider(1, 2, dim=self.dom)\
+        dom, cod = Dim.upgrade(self.dom), Dim.upgrade(self.cod)
+        return Spider(1, 2, dim=dom)\
             >> self.inside.bubble(
                 func=lambda x: self.func(tmp).diff(tmp).subs(tmp, x),
                 drawing_name=name.format(self.drawing_name, var))\
-            @ self.inside.grad(var) >> Spider(2, 1, dim=self.cod)
+            @ self.inside.grad(var) >> Spider(2, 1, dim=cod)
 
 
 Diagram.bubble_factory = Bubble
